@@ -478,6 +478,8 @@ impl<'de> de::Deserialize<'de> for StringHashSet {
                 let mut values = StringHashSet::new();
 
                 while let Some(key) = visitor.next_key()? {
+                    // every key of a map is followed by a value that has to be consumed
+                    visitor.next_value::<de::IgnoredAny>()?;
                     values.insert(key);
                 }
 
